@@ -369,6 +369,11 @@ impl Config {
         self.sync_port = args.sync_port;
         self.leader_address = args.leader_address.clone();
         self.instance_name = args.instance_name.clone();
+        // cluster roles given on the command line need persistence just like the ones given
+        // by environment variables (load_env runs before the arguments are applied)
+        if self.follower || self.leader {
+            self.use_persistence = true;
+        }
     }
 
     pub fn persistence_interval(&self) -> Interval {
